@@ -55,6 +55,8 @@ TRACE_WALK = dict(name="trace_walk", kind="trace", driver="tracecheck", gen_args
                   expect_ops=["add_assertion_envelope", "elide_set", "encrypt_subject", "decrypt_subject", "compress", "uncompress", "encode_decode", "remove_present", "replace_subject", "add_salt"])
 TRACE_WALK_T = dict(TRACE_WALK, name="trace_walk_t", gen_args=["--traces", 120, "--len", 300, "--max-elements", 60])
 TRACE_ORDER = dict(name="trace_order", kind="trace", driver="tracecheck", gen_args=["--mode", "order"], expect_ops=["add_assertion_envelope", "encode_decode"])
+TRACE_BYTES = dict(name="trace_bytes", kind="trace", driver="tracecheck", gen_args=["--mode", "bytes", "--count", 20000], expect_ops=["decode_bytes"])
+TRACE_BYTES_T = dict(TRACE_BYTES, name="trace_bytes_t", gen_args=["--mode", "bytes", "--count", 400000], timeout=3000)
 TRACE_SALT = dict(name="trace_salt", kind="trace", driver="tracecheck", gen_args=["--mode", "salt", "--reps", 16], expect_ops=["add_salt"])
 TRACE_SALT_T = dict(TRACE_SALT, name="trace_salt_t", gen_args=["--mode", "salt", "--reps", 128])
 
@@ -118,8 +120,8 @@ PLAN = {
     ),
     "C06": dict(
         rule="wire terms: the encoding of every shape (<= 5 elements, node-subject nodes, decorated assertions, nodes with 2-3 assertions, tagged-known-value leaves) and of its obscured variants, mutated at one position (reorder / duplicate assertion elements, drop all assertions, non-assertion in an assertion slot, unknown tag, leaf<->envelope retag, legacy leaf tag, digest one byte short/long, 0- or 2-entry assertion map, encrypted/compressed without digest or with a surplus element, non-minimal head, indefinite length, float/text/negative/bool in an element position); thorough: two positions. Each evaluated to bytes and given to the real decoder; the specification's decoder says accept (and what) or reject",
-        quick=[DECODE_Q],
-        thorough=[DECODE_Q, DECODE_T],
+        quick=[DECODE_Q, TRACE_BYTES],
+        thorough=[DECODE_Q, DECODE_T, TRACE_BYTES_T],
     ),
     "C09": dict(
         rule="subjects (leaf, wrapped, node) x signers {s1,s2} (scheme per chain: Schnorr, ECDSA, Ed25519, SSH-Ed25519, ML-DSA44) with/without metadata x then another signature / a forged 'signed' assertion of 8 kinds / elision of any part / another assertion x has_signature_from, verify_signature_from, verify, *_returning_metadata for every key list of length 1-2 and threshold none, 1..n+1",
